@@ -299,28 +299,88 @@ class Gen:
             if pro["lem"] == "lequel":
                 self.rel(pro, head, "relpro", feats=["n", "g"])
             sp = self.P("SP", [pro, self.P("VP", vpk)])
-        else:           # object relative: the subject of the clause controls the verb
-            pro = self.T("Pro", "que" if lang == "fr" else "that")
-            subj = self.subject_pro()
-            if lang == "fr" and r() < 0.6:
-                vlem = self.verb(aux=["av"])
-                if r() < 0.5:
-                    v = self.T("V", vlem, [["t", rng.choice(["pc", "pq"])]])
-                    self.rel(v, subj, "pp_cod", cod=head["id"], tags=["que", "compound"])
-                    vpk = [v]
-                else:
-                    aux = self.T("V", "avoir", self.tense_opts(simple=True))
-                    v = self.T("V", vlem, [["t", "pp"]])
-                    self.rel(aux, subj, "verb", tags=["que", "aux"])
-                    self.rel(v, head, "participle", feats=["n", "g"], tags=["que", "avoir+pp", "cod"])
-                    vpk = [aux, v]
-            else:
-                v = self.T("V", self.verb(aux=["av", "-"]), self.tense_opts(simple=True))
-                self.rel(v, subj, "verb", tags=["object-relative"])
-                vpk = [v]
-            sp = self.P("SP", [pro, subj, self.P("VP", vpk)])
+        else:
+            sp = self.object_relative(head)
         npn["kids"].append(sp)
         self.tags.add("relative")
+
+    def clause_subject(self):
+        """the own subject of a non-subject relative: pronoun, noun phrase or COORDINATION (members of persons 1/2 too);
+        returns (node, controller)"""
+        rng = self.rng
+        x = rng.random()
+        if x < 0.3:
+            p = self.subject_pro()
+            return p, p
+        if x < 0.5:
+            n, hd = self.np(2, rel_ok=False)
+            return n, hd
+        members = []
+        for _ in range(rng.choice([2, 2, 3])):
+            if rng.random() < 0.55:
+                members.append(self.np(2, free=False, rel_ok=False)[0])
+            else:
+                members.append(self.subject_pro(late_ok=False))
+        cp = self.P("CP", [self.T("C", self.conj())] + members)
+        self.tags.add("coord-subject-in-relative")
+        return cp, cp
+
+    def object_relative(self, head):
+        """SP(relative pronoun that is NOT the subject, own subject, VP): the verb, the French attribute and the
+        participle agree with the OWN subject; after `que` the participle of an avoir-verb agrees with the antecedent"""
+        rng, lang = self.rng, self.lang
+        r = rng.random
+        subj, ctrl = self.clause_subject()
+        prep = None
+        if lang == "fr":
+            plem = rng.choice(["que", "que", "où", "dont", "P+qui", "P+lequel"])
+            if plem.startswith("P+"):
+                prep, plem = self.T("P", rng.choice(["à", "pour", "avec"])), plem[2:]
+        else:
+            plem = rng.choice(["that", "that", "which", "whom"])
+        pro = self.T("Pro", plem)
+        ptag = "pro=" + ("P+" if prep is not None else "") + plem
+        tags = ["object-relative", ptag] + (["coord"] if ctrl["k"] == "CP" else [])
+        x = r()
+        if lang == "fr" and plem == "que":
+            vlem = self.verb(aux=["av"])
+            if r() < 0.5:
+                v = self.T("V", vlem, [["t", rng.choice(["pc", "pq"])]])
+                self.rel(v, ctrl, "pp_cod", cod=head["id"], tags=tags + ["que", "compound"])
+                vpk = [v]
+            elif r() < 0.5:
+                aux = self.T("V", "avoir", self.tense_opts(simple=True))
+                v = self.T("V", vlem, [["t", "pp"]])
+                self.rel(aux, ctrl, "verb", tags=tags + ["que", "aux"])
+                self.rel(v, head, "participle", feats=["n", "g"], tags=["que", "avoir+pp", "cod"])
+                vpk = [aux, v]
+            else:
+                v = self.T("V", vlem, self.tense_opts(simple=True))
+                self.rel(v, ctrl, "verb", tags=tags)
+                vpk = [v]
+        elif lang == "fr" and x < 0.35:
+            v = self.T("V", self.verb(aux=["êt"]), [["t", rng.choice(["pc", "pq", "fa"])]])
+            self.rel(v, ctrl, "verb", tags=tags + ["aux-être", "compound"])
+            vpk = [v]
+        elif lang == "fr" and x < 0.7:
+            v = self.T("V", self.verb(copula=True), self.tense_opts())
+            self.rel(v, ctrl, "verb", tags=tags + ["copula"])
+            vpk = [v]
+            if r() < 0.3:
+                vpk.append(self.T("Adv", self.adv()))
+            if r() < 0.6:
+                a = self.T("A", self.adj())
+                self.rel(a, ctrl, "attribute", tags=tags)
+            else:
+                a = self.T("V", self.verb(), [["t", "pp"]])
+                self.rel(a, ctrl, "participle", tags=tags + ["copula"])
+            vpk.append(a)
+        else:
+            v = self.T("V", self.verb(aux=["av", "-"]), self.tense_opts() if lang == "en" else self.tense_opts(simple=r() < 0.5))
+            self.rel(v, ctrl, "verb", tags=tags)
+            vpk = [v]
+        kids = ([prep] if prep is not None else []) + [pro, subj, self.P("VP", vpk)]
+        return self.P("SP", kids)
 
     def tense_opts(self, simple=False):
         rng = self.rng
